@@ -215,6 +215,31 @@ func runC35(c *core.Check) {
 		}
 		c.Decide(okCall, "C35.validate", "Compile:validates-links-before-success", vb.Decl.Pos(), "every success return on Compile's path passes validateBoardLinks", "a compiled graph can be returned without its board links having been validated")
 	}
+	// hasBoard matches the kind keyword of each path segment with the board list of that kind
+	if hb := mustFunc(c, "d2compiler", "", "hasBoard"); hb != nil {
+		kinds := map[string]string{}
+		ast.Inspect(hb.Decl.Body, func(nd ast.Node) bool {
+			cc, ok := nd.(*ast.CaseClause)
+			if !ok || len(cc.List) != 1 {
+				return true
+			}
+			tv, ok := hb.Pkg.TypesInfo.Types[cc.List[0]]
+			if !ok || tv.Value == nil {
+				return true
+			}
+			kw := strings.Trim(tv.Value.ExactString(), `"`)
+			for _, st := range cc.Body {
+				if rs, ok := st.(*ast.RangeStmt); ok {
+					if sel, ok := rs.X.(*ast.SelectorExpr); ok {
+						kinds[kw] = sel.Sel.Name
+					}
+				}
+			}
+			return true
+		})
+		okK := kinds["layers"] == "Layers" && kinds["scenarios"] == "Scenarios" && kinds["steps"] == "Steps"
+		c.Decide(okK, "C35.validate", "hasBoard:kind-matches-list", hb.Decl.Pos(), "layers→Layers, scenarios→Scenarios, steps→Steps", fmt.Sprintf("hasBoard does not look each kind keyword up in the board list of that kind (%v): a link such as layers.s where s is a scenario is accepted although no such board exists", kinds))
+	}
 	// (4) absolute
 	for _, name := range []string{"compileLink", "extendLinks"} {
 		fi := mustFunc(c, "d2ir", "compiler", name)
